@@ -315,7 +315,7 @@ def evaluate(ctx, ident, arrays, cfgs):
 
 def run(ctx):
     ident, arrays = gen(ctx)
-    return evaluate(ctx, ident, arrays, ["dbg", "rel"])
+    return evaluate(ctx, ident, arrays, ["dbg", "rel", "isa"])
 
 
 def replay(ctx):
